@@ -68,6 +68,15 @@ unsafe impl<'a, T> MatrixRef<T> for MatrixPart<'a, T> {
     }
 
     unsafe fn get_reference_unchecked(&self, row: Row, column: Column) -> &T {
+        #[cfg(feature = "verif-hooks")]
+        {
+            if !(row < self.rows && column < self.columns)
+                || self.data.len() != self.rows
+                || self.data.iter().any(|r| r.len() != self.columns)
+            {
+                panic!("EASYML-VERIF-HOOK: matrix part unchecked access ({}, {}) size ({}, {})", row, column, self.rows, self.columns);
+            }
+        }
         self.data.get_unchecked(row).get_unchecked(column)
     }
 
@@ -92,6 +101,15 @@ unsafe impl<'a, T> MatrixMut<T> for MatrixPart<'a, T> {
     }
 
     unsafe fn get_reference_unchecked_mut(&mut self, row: Row, column: Column) -> &mut T {
+        #[cfg(feature = "verif-hooks")]
+        {
+            if !(row < self.rows && column < self.columns)
+                || self.data.len() != self.rows
+                || self.data.iter().any(|r| r.len() != self.columns)
+            {
+                panic!("EASYML-VERIF-HOOK: matrix part unchecked access ({}, {}) size ({}, {})", row, column, self.rows, self.columns);
+            }
+        }
         self.data.get_unchecked_mut(row).get_unchecked_mut(column)
     }
 }
